@@ -1,6 +1,6 @@
 (** * C20 - cooling models stay inside their physical envelope ([R] theorems; erfc laws as premises). *)
 From Coq Require Import Reals Lra List ZArith Bool.
-From WB Require Import Num Base RNum Props World Kernels Features ModelProofs SlabMass SlabFeature SlabTempProofs.
+From WB Require Import Num Base RNum Props World Kernels Features ModelProofs SlabMass SlabFeature SlabTempProofs SeriesProofs.
 Import ListNotations.
 Local Open Scope R_scope.
 
@@ -63,6 +63,24 @@ Section C20.
   Theorem C20_slab_plate_model_boundaries : forall n i Rn x acc,
     @mckenzie_sum R N n i Rn x 0 acc = acc /\ @mckenzie_sum R N n i Rn x 1 acc = acc.
   Proof. exact (mckenzie_vanishes_on_boundaries sp). Qed.
+
+  (** truncated plate series (ridge-age and constant-age): the temperature leaves the envelope [top, bot] of its end members
+      by at most (bot - top) times the amplitude sum  sum_i 2/(i pi) exp(expo i)  of the terms - the two-sided bound
+      that does hold for a truncated series, at every age (the young ages of finding D15 included) *)
+  Theorem C20_plate_series_overshoot : forall n top bot d md expo,
+    top <= bot -> 0 < md -> 0 <= d <= md ->
+    let T := @plate_series R N n 1 (bot - top) d md expo (top + (bot - top) * (d / md)) in
+    top - (bot - top) * series_bound n 1 expo <= T <= bot + (bot - top) * series_bound n 1 expo.
+  Proof. exact (plate_model_overshoot sp). Qed.
+
+  (** constant-age plate model: the possible overshoot dies out exponentially with the dimensionless age kappa*age/md^2 *)
+  Theorem C20_constant_age_overshoot : forall n top bot d md kap age,
+    top <= bot -> 0 < md -> 0 <= d <= md -> 0 <= kap -> 0 <= age ->
+    let expo := fun fi : R => (((((((- 1) * fi) * fi) * PI) * PI) * kap) * age) / (md * md) in
+    let T := @plate_series R N n 1 (bot - top) d md expo (top + (bot - top) * (d / md)) in
+    let B := INR n * (2 / PI * exp (- (PI * PI * kap * age / (md * md)))) in
+    top - (bot - top) * B <= T <= bot + (bot - top) * B.
+  Proof. exact (const_age_plate_envelope sp). Qed.
 End C20.
 
 Print Assumptions C20_half_space_envelope.
@@ -73,3 +91,5 @@ Print Assumptions C20_plate_boundaries.
 Print Assumptions C20_mass_conserving_bottom_side.
 Print Assumptions C20_mass_conserving_slab_top.
 Print Assumptions C20_slab_plate_model_boundaries.
+Print Assumptions C20_plate_series_overshoot.
+Print Assumptions C20_constant_age_overshoot.
